@@ -134,16 +134,42 @@ theorem enc_length_ge (ms : List M) : ms.length ≤ (enc ms).length := by
 
 /-! ### IPv4 -/
 
-theorem cm4_apply_none_iff (cm : CM4) (m : List Nat) :
-    cm.apply m = none ↔ (msgHeader m).1 = protocolIP ∧ (msgHeader m).2.1 = 0 := by
+/-- One message never triggers a nil-function call (repaired `Parse`: every case is guarded by
+`ctlOpts[...].name > 0`). -/
+theorem cm4_apply_isSome (cm : CM4) (m : List Nat) : (cm.apply m).isSome = true := by
   unfold CM4.apply
   simp only
-  generalize (msgHeader m).1 = lvl
-  generalize (msgHeader m).2.1 = typ
-  generalize (msgHeader m).2.2 = data
-  unfold protocolIP ipTTL ipPktinfo
-  by_cases h1 : lvl = 0 <;> by_cases h2 : typ = 0 <;> by_cases h3 : typ = 2 <;> simp [h1, h2, h3] <;>
-    (repeat' split) <;> simp_all <;> omega
+  (repeat' split) <;> rfl
+
+theorem cm4_applyAll_isSome (ms : List (List Nat)) : ∀ cm : CM4, (cm.applyAll ms).isSome = true := by
+  induction ms with
+  | nil => intro cm; rfl
+  | cons m r ih =>
+    intro cm
+    unfold CM4.applyAll at ih ⊢
+    rw [List.foldl_cons, Option.bind_some]
+    have := cm4_apply_isSome cm m
+    cases h : cm.apply m with
+    | none => rw [h] at this; simp at this
+    | some c => exact ih c
+
+/-- **Totality**: `ipv4.ControlMessage.Parse` never panics — for every byte string the result is a
+control message or one of the three `internal/socket` errors. (Before the repair a message of level
+`IPPROTO_IP` and type 0 called a nil function.) -/
+theorem cm4_parse_total (cm : CM4) (b : List Nat) : (∃ c, cm.parse b = .ok c) ∨ (∃ e, cm.parse b = .err e) := by
+  unfold CM4.parse
+  cases splitMsgs (b.length + 1) b with
+  | error e => right; exact ⟨e, rfl⟩
+  | ok ms =>
+    left
+    have := cm4_applyAll_isSome ms cm
+    cases h : cm.applyAll ms with
+    | none => rw [h] at this; simp at this
+    | some c => exact ⟨c, by simp [h]⟩
+
+/-- The old witness (16 bytes: length 16, level 0, type 0) is now ignored like any unknown option. -/
+example : (match CM4.zero.parse [16, 0, 0, 0, 0, 0, 0, 0, 0, 0, 0, 0, 0, 0, 0, 0] with
+    | .ok c => decide (c = CM4.zero) | _ => false) = true := by decide
 
 theorem cm4_parse_enc (cm0 : CM4) (ms : List M) (hs : ∀ m ∈ ms, m.2.2.length < 4294967000) :
     cm0.parse (enc ms) =
@@ -157,7 +183,6 @@ theorem cm4_apply_raw (cm : CM4) (lvl typ : Int) (data : List Nat)
     cm.apply (raw lvl typ data) =
       (if lvl ≠ protocolIP then some cm
        else if typ = ipTTL ∧ data.length ≥ 1 then some { cm with ttl := (data.getD 0 0 : Nat) }
-       else if typ = 0 then none
        else if typ = ipPktinfo ∧ data.length ≥ sizeofInetPktinfo then
          some { cm with ifIndex := rdI32 data,
                         dst := (if cm.dst.length < 4 then (data.drop 8).take 4
@@ -212,9 +237,8 @@ theorem cm4_roundtrip (cm : CM4) (hi : cm.ifIndex < 2147483648) :
     rw [cm4_apply_raw _ _ _ _ (by decide) (by decide)]
     have e1 : ¬ (protocolIP ≠ protocolIP) := by simp
     have e2 : ¬ (ipPktinfo = ipTTL ∧ (pktinfo4 cm).length ≥ 1) := by intro h; exact absurd h.1 (by decide)
-    have e3 : ¬ (ipPktinfo = 0) := by decide
     have e4 : ipPktinfo = ipPktinfo ∧ (pktinfo4 cm).length ≥ sizeofInetPktinfo := ⟨rfl, by rw [f1]; decide⟩
-    rw [if_neg e1, if_neg e2, if_neg e3, if_pos e4]
+    rw [if_neg e1, if_neg e2, if_pos e4]
     simp [CM4.zero, f2, f3]
   · rw [cm4_parse_enc _ _ (by simp)]
     simp [CM4.applyAll]
@@ -243,9 +267,8 @@ theorem cm4_receive (ttl : Nat) (ifi : Int) (hi : -2147483648 ≤ ifi ∧ ifi < 
   simp only [Option.bind_some]
   rw [cm4_apply_raw _ _ _ _ (by decide) (by decide)]
   have e3 : ¬ (ipPktinfo = ipTTL ∧ (le32 ifi ++ spec ++ dst).length ≥ 1) := by intro h; exact absurd h.1 (by decide)
-  have e4 : ¬ (ipPktinfo = 0) := by decide
   have e5 : ipPktinfo = ipPktinfo ∧ (le32 ifi ++ spec ++ dst).length ≥ sizeofInetPktinfo := ⟨rfl, by rw [hl]; decide⟩
-  rw [if_neg e1, if_neg e3, if_neg e4, if_pos e5]
+  rw [if_neg e1, if_neg e3, if_pos e5]
   simp [CM4.zero]
   exact ⟨by rw [← List.append_assoc]; exact hdst, by rw [← List.append_assoc]; exact hrd⟩
 
